@@ -8,6 +8,8 @@ import (
 	"strings"
 
 	"github.com/ipfs/boxo/blockservice"
+	"github.com/ipfs/boxo/blockstore"
+	"github.com/ipfs/boxo/exchange"
 	"github.com/ipfs/boxo/verifshim/eng"
 	"github.com/ipfs/boxo/verifshim/vsched"
 	blocks "github.com/ipfs/go-block-format"
@@ -125,6 +127,32 @@ type world struct {
 	x     *xfake
 	bs    blockservice.BlockService
 	local map[string]bool // multihash keys present before the call
+	// wrap: sessions are created on a BlockService wrapper whose Blockstore()
+	// and Exchange() accessors are scheduling points (concurrent part)
+	wrap bool
+	// faulty: the scenario cancels the context or lets Put fail; availability is then not demanded
+	faulty bool
+}
+
+// yieldBS is a BlockService wrapper (as applications write them) whose accessor
+// calls take time: every call is a scheduling point.
+type yieldBS struct{ blockservice.BlockService }
+
+func (y yieldBS) Exchange() exchange.Interface {
+	vsched.Yield("bs.Exchange")
+	return y.BlockService.Exchange()
+}
+
+func (y yieldBS) Blockstore() blockstore.Blockstore {
+	vsched.Yield("bs.Blockstore")
+	return y.BlockService.Blockstore()
+}
+
+func (w *world) sessionBS() blockservice.BlockService {
+	if w.wrap {
+		return yieldBS{w.bs}
+	}
+	return w.bs
 }
 
 func newWorld(c caseT) *world {
@@ -150,7 +178,7 @@ func newWorld(c caseT) *world {
 func (w *world) getter(ctx context.Context, entry string) (context.Context, blockservice.BlockGetter) {
 	switch entry {
 	case "session":
-		return ctx, blockservice.NewSession(ctx, w.bs)
+		return ctx, blockservice.NewSession(ctx, w.sessionBS())
 	case "ctxsession":
 		return blockservice.ContextWithSession(ctx, w.bs), w.bs
 	}
@@ -222,6 +250,39 @@ func judge(c caseT, w *world, req []cid.Cid, got []rx, gbErr error) *eng.Violati
 	if c.Call == "GetBlock" && len(req) == 1 && req[0].Defined() && w.local[skey(req[0])] {
 		if gbErr != nil || len(got) != 1 {
 			return eng.V("getblock-local-miss", c.Call, fmt.Sprintf("%s: GetBlock of a locally stored block returned %v", c, gbErr), feat("-")...)
+		}
+	}
+	// Availability, fault-free executions only (no cancellation, no failing Put,
+	// the exchange call itself does not fail): a requested, allowlisted block
+	// that is stored locally, or that the exchange does deliver honestly, is
+	// handed over at least once.
+	if !w.faulty {
+		emitted := map[string]bool{}
+		for _, r := range got {
+			if r.blk != nil {
+				emitted[r.blk.Cid().KeyString()] = true
+			}
+		}
+		for i, k := range req {
+			n := c.Req[i]
+			if n == "I" || n == "U" || emitted[k.KeyString()] {
+				continue
+			}
+			deliverable := w.local[skey(k)]
+			if !deliverable && !c.NoEx && !c.CallErr {
+				for _, a := range w.x.script {
+					if a.kind == "honest" && a.blk.Cid().Equals(k) {
+						deliverable = true
+					}
+				}
+			}
+			if deliverable {
+				src := "exchange"
+				if w.local[skey(k)] {
+					src = "local"
+				}
+				return eng.V("deliverable-block-missing", c.Call, fmt.Sprintf("%s: block %s was requested and is available (%s), no fault and no cancellation occurred, yet it was not handed over (err=%v; exchange asked %d times)", c, n, src, gbErr, len(w.x.reqs)), "source", src, "call", c.Call, "entry", c.Entry)
+			}
 		}
 	}
 	return nil
